@@ -19,10 +19,10 @@ import (
 // One state of MCGoDec: a Go type (given by its zero value), a JSON text, and what GoDec.tla says Unmarshal stores
 // into a zero value of that type (want) and whether it reports an error ("" | "saved" | "hard").
 type godecLine struct {
-	Fam  string                 `json:"fam"`
-	T    map[string]interface{} `json:"t"`
-	Text []int                  `json:"text"`
-	Want  map[string]interface{} `json:"want"`  // Unmarshal (the fork always decodes with UseNumber)
+	Fam   string                 `json:"fam"`
+	T     map[string]interface{} `json:"t"`
+	Text  []int                  `json:"text"`
+	Want  map[string]interface{} `json:"want"` // Unmarshal (the fork always decodes with UseNumber)
 	Err   string                 `json:"err"`
 	WantD map[string]interface{} `json:"wantd"` // Decoder.Decode without UseNumber
 	ErrD  string                 `json:"errd"`
